@@ -189,6 +189,35 @@ pub fn run(op: &str, rd: &mut Rd) -> Option<R> {
             }));
             Ok(format!("{} {} {} {} {}", bp.winding(q), rev.winding(q), tr.winding(a * q), raised.winding(q), split.winding(q)))
         })(),
+        // cubic -> quadratics, nearest
+        "cubic.to_quads" => (|| -> R {
+            let c = rd.cubic()?; let acc = rd.num()?;
+            let v: Vec<(f64, f64, QuadBez)> = c.to_quads(acc).collect();
+            let mut s = format!("{}", v.len());
+            for (t0, t1, q) in v { s.push_str(&format!(" | {} {} {}", e(t0), e(t1), e_quad(q))); }
+            Ok(s)
+        })(),
+        "cubic.approx_spline" => (|| -> R {
+            let c = rd.cubic()?; let acc = rd.num()?;
+            Ok(match c.approx_spline(acc) { None => "none".to_string(), Some(sp) => e_pts(sp.points()) })
+        })(),
+        "cubics.to_splines" => (|| -> R {
+            let acc = rd.num()?; let n = rd.nat()?;
+            let mut cs = vec![]; for _ in 0..n { cs.push(rd.cubic()?); }
+            Ok(match cubics_to_quadratic_splines(&cs, acc) { None => "none".to_string(), Some(v) => v.iter().map(|sp| e_pts(sp.points())).collect::<Vec<_>>().join(" | ") })
+        })(),
+        "spline.to_quads" => (|| -> R {
+            let n = rd.nat()?; let mut pts = vec![]; for _ in 0..n { pts.push(rd.pt()?); }
+            let qs: Vec<QuadBez> = QuadSpline::new(pts).to_quads().collect();
+            let mut s = format!("{}", qs.len());
+            for q in qs { s.push_str(" | "); s.push_str(&e_quad(q)); }
+            Ok(s)
+        })(),
+        "seg.nearest" => (|| -> R {
+            let s = rd.seg()?; let p = rd.pt()?; let acc = rd.num()?;
+            let n = s.nearest(p, acc);
+            Ok(format!("{} {}", e(n.t), e(n.distance_sq)))
+        })(),
         _ => return None,
     })
 }
